@@ -338,6 +338,10 @@ pub fn op_strategy() -> BoxedStrategy<Op> {
         1 => Just(Op::EmptyDir),
         1 => (0usize..8).prop_map(|which| Op::BranchLikeTag { which }),
         1 => (0usize..8, any::<bool>()).prop_map(|(which, tracked)| Op::FileLikeRef { which, tracked }),
+        1 => any::<bool>().prop_map(|gc| Op::Repack { gc }),
+        1 => any::<bool>().prop_map(|blob| Op::TagNonCommit { blob }),
+        1 => (0usize..6, 0usize..30).prop_map(|(kind, at)| Op::ForeignRef { kind, at }),
+        1 => (proptest::option::weighted(0.6, 0usize..crate::gitlab::TAGS.len()), skew()).prop_map(|(tag, time_skew)| Op::OrphanMerge { tag, time_skew }),
     ]
     .boxed()
 }
